@@ -1136,7 +1136,9 @@ fn parse_mapping(mapping: &Mapping) -> crate::Result<Expression> {
                 let mut rest: Vec<Expression> = vec![]; // NOTE: Don't care about speed of numbers atm
 
                 let mut boolean = false;
-                let mut cast = false;
+                // NOTE: A `str()` key casts the field whatever the members are (a list of numbers or
+                // booleans has no string member that would turn the cast on below)
+                let mut cast = matches!(misc, Some(ModSym::Str));
                 let mut mapping = false;
                 let mut number = false;
                 let mut string = false;
